@@ -53,6 +53,7 @@ OPTIONS = [
     ('strip', {'strip': True}),
     ('extra-letters', {'extra_letters': '_-'}),
     ('portable', {'dialect': 'portable'}),
+    ('grep', {'dialect': 'grep'}),
 ]
 
 
@@ -123,7 +124,7 @@ def corpus_for(run):
     if run.tier == 'thorough':
         return [(n, ex, on, o) for n, ex in CORPUS for on, o in OPTIONS]
     quick_opts = {'codes': ('plain', 'tag'), 'uk-postcodes': ('plain',), 'mixed-shapes': ('plain',), 'punctuation': ('plain', 'tag'),
-                  'ends-in-dollar': ('plain',), 'unicode-letters': ('plain', 'portable'), 'padded': ('plain', 'strip'),
+                  'ends-in-dollar': ('plain',), 'unicode-letters': ('plain', 'portable', 'grep'), 'padded': ('plain', 'strip'),
                   'empty-and-blank': ('plain',), 'underscores': ('extra-letters',), 'repeats': ('plain',), 'tabs-newlines': ('plain',),
                   'right-aligned-constant': ('plain',), 'right-aligned-suffix': ('plain',), 'left-aligned-constant': ('plain',),
                   'left-aligned-prefix': ('plain',), 'short-and-long': ('plain',)}
